@@ -13,11 +13,20 @@ Open Scope string_scope.
 
 Definition inb (x : string) (l : list string) : bool := existsb (String.eqb x) l.
 
-Definition args_exempt (f : string) : bool := inb f known_arg_writers || inb f unproved_args.
+Fixpoint allowed_args (l : list (string * list nat)) (f : string) : list nat :=
+  match l with
+  | [] => []
+  | (g, ps) :: l' => if String.eqb f g then ps else allowed_args l' f
+  end.
+
+(* recorded findings exempt the callable; "unproved" exceptions exempt only the listed
+   argument positions of the callable *)
+Definition args_exempt (f : string) : bool := inb f known_arg_writers.
 Definition ret_exempt (f : string) : bool := inb f known_cache_returners || inb f cache_accessors.
 
 Definition public_ok (fp : string * prog) : bool :=
-  (args_exempt (fst fp) || safe_args (snd fp)) && (ret_exempt (fst fp) || safe_ret (snd fp)).
+  (args_exempt (fst fp) || safe_args_except (allowed_args unproved_args (fst fp)) (snd fp))
+  && (ret_exempt (fst fp) || safe_ret (snd fp)).
 
 Lemma safe_all_public : forallb public_ok public_functions = true.
 Proof. vm_compute. reflexivity. Qed.
@@ -34,7 +43,7 @@ Definition rejected_ret (f : string) : bool :=
   match lookup public_functions f with Some p => negb (safe_ret p) | None => false end.
 
 Lemma exceptions_refuted :
-  forallb rejected_args (known_arg_writers ++ unproved_args) = true /\
+  forallb rejected_args (known_arg_writers ++ map fst unproved_args) = true /\
   forallb rejected_ret (known_cache_returners ++ cache_accessors) = true.
 Proof. split; vm_compute; reflexivity. Qed.
 
@@ -47,12 +56,14 @@ Qed.
 
 Theorem public_args_intact : forall f p, In (f, p) public_functions -> args_exempt f = false ->
   forall st st', init_ok p st -> exec (body p) st st' ->
-  forall b, arg_buffer p st b -> ver st' b = ver st b.
+  forall b, arg_buffer p st b ->
+  (forall i, org st b = LArg i -> existsb (Nat.eqb i) (allowed_args unproved_args f) = false) ->
+  ver st' b = ver st b.
 Proof.
-  intros f p Hin Hex st st' Hi He b Hb.
-  pose proof (public_ok_in f p Hin) as H. unfold public_ok in H. simpl in H.
-  apply andb_prop in H. destruct H as [H _]. rewrite Hex in H. simpl in H.
-  exact (safe_args_sound p H st st' Hi He b Hb).
+  intros f p Hin Hex st st' Hi He b Hb Hna.
+  pose proof (public_ok_in f p Hin) as H. unfold public_ok in H. cbn [fst snd] in H.
+  apply andb_prop in H. destruct H as [H _]. rewrite Hex in H. cbn [orb] in H.
+  exact (safe_args_except_sound _ p H st st' Hi He b Hb Hna).
 Qed.
 
 Theorem public_results_not_cached : forall f p, In (f, p) public_functions -> ret_exempt f = false ->
@@ -60,8 +71,8 @@ Theorem public_results_not_cached : forall f p, In (f, p) public_functions -> re
   forall b, In b (rets st') -> cached st' b = false.
 Proof.
   intros f p Hin Hex st st' Hi He b Hb.
-  pose proof (public_ok_in f p Hin) as H. unfold public_ok in H. simpl in H.
-  apply andb_prop in H. destruct H as [_ H]. rewrite Hex in H. simpl in H.
+  pose proof (public_ok_in f p Hin) as H. unfold public_ok in H. cbn [fst snd] in H.
+  apply andb_prop in H. destruct H as [_ H]. rewrite Hex in H. cbn [orb] in H.
   exact (safe_ret_sound p H st st' Hi He b Hb).
 Qed.
 
